@@ -437,6 +437,12 @@ func infoOf(dt asetypes.DataType) dtInfo {
 
 // result set: ROWFMT(/2) + rows; returns items
 func resultSet(g *pk.Gen, wide bool, ncols, nrows int) []Item {
+	return resultSetKind(g, wide, ncols, nrows, true, int(tds.TDS_ROW))
+}
+
+// resultSetKind: a format package of the row or the parameter family followed by data packages with the given token
+// (the data layout of TDS_ROW and TDS_PARAMS is the same)
+func resultSetKind(g *pk.Gen, wide bool, ncols, nrows int, rowFam bool, dataTok int) []Item {
 	var fs []Fmt
 	for i := 0; i < ncols; i++ {
 		nt := len(rxTypes)
@@ -444,7 +450,7 @@ func resultSet(g *pk.Gen, wide bool, ncols, nrows int) []Item {
 			nt = rxSafe
 		}
 		info := infoOf(rxTypes[g.Rng.Intn(nt)])
-		f := randFmt(g, info, wide, true, g.Rng.Intn(4) == 0)
+		f := randFmt(g, info, wide, rowFam, g.Rng.Intn(4) == 0)
 		f.name, f.locale = randName(g, 6), ""
 		if wide {
 			f.label, f.cat, f.schema, f.table = randName(g, 5), "", "", randName(g, 5)
@@ -460,7 +466,7 @@ func resultSet(g *pk.Gen, wide bool, ncols, nrows int) []Item {
 		}
 		fs = append(fs, f)
 	}
-	items := []Item{{fmtToken(wide, true), fmtBody(fs, wide, true)}}
+	items := []Item{{fmtToken(wide, rowFam), fmtBody(fs, wide, rowFam)}}
 	for r := 0; r < nrows; r++ {
 		var body []byte
 		for _, f := range fs {
@@ -478,7 +484,42 @@ func resultSet(g *pk.Gen, wide bool, ncols, nrows int) []Item {
 			}
 			body = append(body, d.encode(f)...)
 		}
-		items = append(items, Item{int(tds.TDS_ROW), body})
+		items = append(items, Item{dataTok, body})
+	}
+	return items
+}
+
+// disorder: valid package encodings in an unusual order
+func disorder(g *pk.Gen) []Item {
+	wide := g.Rng.Bool()
+	rowFam := g.Rng.Bool()
+	dataTok := int(tds.TDS_ROW)
+	if g.Rng.Bool() {
+		dataTok = int(tds.TDS_PARAMS)
+	}
+	set := resultSetKind(g, wide, g.Rng.Range(1, 2), g.Rng.Range(1, 3), rowFam, dataTok)
+	var items []Item
+	switch g.Rng.Intn(6) {
+	case 0, 1: // as generated: every combination of format family and data token
+		items = set
+	case 2: // no format at all
+		items = set[1:]
+	case 3: // format last
+		items = append(append([]Item{}, set[1:]...), set[0])
+	case 4: // a DONE / message between format and data, then data of both tokens
+		items = []Item{set[0], doneItem(int(tds.TDS_DONEINPROC), 0x11, 0, 1)}
+		items = append(items, set[1:]...)
+		items = append(items, Item{int(tds.TDS_ROW) + int(tds.TDS_PARAMS) - dataTok, set[len(set)-1].Body})
+	default: // two sets and a response shuffled
+		items = append(set, resultSetKind(g, !wide, 1, 2, !rowFam, dataTok)...)
+		items = append(items, Response(g)...)
+		for i := len(items) - 1; i > 0; i-- {
+			j := g.Rng.Intn(i + 1)
+			items[i], items[j] = items[j], items[i]
+		}
+	}
+	if g.Rng.Bool() {
+		items = append(items, finalDone(g))
 	}
 	return items
 }
@@ -742,7 +783,11 @@ func GenRx(g *pk.Gen) {
 	defer func() { rxMutated = false }()
 	for i := 0; i < nm; i++ {
 		msg := stream(Response(g))
-		if len(msg) == 0 || g.Rng.Intn(5) == 0 {
+		if g.Rng.Intn(4) == 0 {
+			// well-formed packages in an order no server sends: a format of one family followed by data packages of the
+			// other, data packages without any format, a format after the data, everything shuffled
+			msg = stream(disorder(g))
+		} else if len(msg) == 0 || g.Rng.Intn(5) == 0 {
 			msg = g.Rng.Bytes(g.Rng.Range(1, 40))
 		} else {
 			for k := 0; k < g.Rng.Range(1, 3); k++ {
